@@ -12,8 +12,8 @@ SPEC = dict(
                 "(head >= 12 bytes: equal outside bytes 8..12) and None for absent tags; offsets are 4-aligned, tables in bounds, zero "
                 "padded, laid out back to back in ordered_tags() order; each record checksum is the checksum of its table (head with the "
                 "adjustment zeroed); with a head of >= 12 bytes the whole-file checksum is 0xB1B0AFBA; any two insertion sequences "
-                "denoting the same map build identical bytes; copy_missing_tables never overrides a supplied table; an add_table whose compilation fails leaves the builder unchanged (no phantom tag, later copies not masked). The model is tied to "
-                "the code on every run: ~2600 generated op sequences (add_raw / add_table of compiling and non-compiling typed tables / copy_missing_tables, interleaved) / malformed files are run through the real write-fonts and "
+                "denoting the same map build identical bytes; copy_missing_tables never overrides a supplied table; an add_table whose compilation fails leaves the builder unchanged (no phantom tag, later copies not masked); build() drains the builder completely (zero-length tables too), so a reused builder behaves like a fresh one. The model is tied to "
+                "the code on every run: ~2800 generated op sequences (add_raw / add_table of compiling and non-compiling typed tables / copy_missing_tables / intermediate build() with reuse of the same builder, interleaved; tags from a registry of sfnt tags, the tag literals of the source under test and their look-alikes) / malformed files are run through the real write-fonts and "
                 "read-fonts and the model is evaluated on them by vm_compute, comparing the whole file byte for byte plus every reader "
                 "answer; an independent implementation-only oracle re-checks the property text on ~4100 real builds incl. 70 000-byte "
                 "tables and up to 4095 tables."),
@@ -32,7 +32,8 @@ SPEC = dict(
                  "u32 position overflow (>= 4 GiB of table data): the model predicts a panic, not exercised against the code",
                  "binary search on unsorted / duplicate directories: correspondence only (malformed stream), no theorem",
                  "FontBuilder::build panics from 4096 tables on (SearchRange u16 conversion): treated as a size precondition (c06_build_precondition_sharp), recorded in evidence as build_with_4096_tables; see notes/C06.md"],
-    assumptions=["Rust integer semantics as in coq/Lib/RustInt.v; BTreeMap<Tag,_> behaves as a finite map ordered by the tag's big-endian u32 value",
+    assumptions=["the tags font_builder.rs treats specially are the 4-byte literals of its non-test source (extracted at run time from FV_REPO and required to equal the model's special_tags)",
+                 "Rust integer semantics as in coq/Lib/RustInt.v; BTreeMap<Tag,_> behaves as a finite map ordered by the tag's big-endian u32 value",
                  "core::slice::binary_search_by is the branch-free loop of Rust >= 1.82 (as modelled in bs_loop)",
                  "usize is 64 bits (checked_add / checked_mul on u32-sized operands never overflow)"],
 )
